@@ -64,7 +64,7 @@ class Rep:
 
 
 def frame_case(kind, n):
-    if kind == "data":
+    if kind in ("data", "oversize"):
         return "frame=0004" if n == 4 else "frame=data"
     return {"flush": "frame=0000", "delim": "frame=0001", "respend": "frame=0002"}.get(kind, "frame=" + kind)
 
@@ -126,7 +126,7 @@ def check_one_frame(rep, pre, n, kind, rp):
     global _READERS
     if _READERS is None:
         _READERS = readers()
-    if kind == "data":
+    if kind in ("data", "oversize"):
         payload = BIG[:n - 4]
         data = pre + payload + b"0000"
     elif kind == "invalid":
@@ -140,8 +140,10 @@ def check_one_frame(rep, pre, n, kind, rp):
             rep.v(site, "TotalDecoder", f"{frame_case(kind, n)} -> {okind(end)}",
                   f"frame {pre!r}+{max(n - 4, 0)} bytes: {end[1]} instead of a frame or GitProtocolError", rp)
             continue
-        if kind == "data":
+        if kind in ("data", "oversize"):
             want = [payload, None]
+            if kind == "oversize" and not got and end[0] == "proterr":
+                continue          # longer than any writer may send: refusing is allowed
         elif kind == "flush":
             want = [None, None]
         elif kind == "delim":
@@ -748,8 +750,8 @@ def part_pktline(ctx, rep, jobs):
                 ncmp += check_prefix(rep, {"prefix": list(pre), "n": nref, "kind": kind, "frames": frames})
             else:
                 ncmp += 1
-            if n < 3 or (n % 50021 == 0):
-                ctx.sample({"kind": "prefix", "prefix": pre.decode("latin-1"), "reference": nref, "frame_kind": kind}, limit=3)
+            if n == 4242:
+                ctx.sample({"kind": "prefix-" + fam, "prefix": pre.decode("latin-1"), "reference": nref, "frame_kind": kind}, limit=20)
         del text
         if n != res.distinct:
             raise MachineryError(f"prefix-{fam}: {n} cases parsed from the dump, TLC reports {res.distinct}")
@@ -779,8 +781,8 @@ def part_pktline(ctx, rep, jobs):
                 c = {**case, **exp}
             ncmp += CHECKS[key](rep, c)
             n += 1
-            if n in (2, 7):
-                ctx.sample({"kind": fam, "case": c if fam not in ("caps", "want") else {k: (bytes(v).decode("latin-1") if k in ("line", "head", "ref") else v) for k, v in c.items() if k != "parsed"}}, limit=12)
+            if n == 7:
+                ctx.sample({"kind": fam, "case": c if fam not in ("caps", "want") else {k: (bytes(v).decode("latin-1") if k in ("line", "head", "ref") else v) for k, v in c.items() if k != "parsed"}}, limit=20)
             ctx.nontrivial((fam, json.dumps(case, sort_keys=True)))
         if n != res.distinct:
             raise MachineryError(f"{fam}: {n} cases parsed, TLC reports {res.distinct}")
@@ -812,7 +814,7 @@ def part_machines(ctx, rep, jobs):
             leaf.update(extra)
             ncmp += CHECKS[kind](rep, leaf)
             if i == len(ls) // 2:
-                ctx.sample({"kind": kind, "behaviour": leaf}, limit=12)
+                ctx.sample({"kind": kind, "behaviour": leaf}, limit=20)
             ctx.nontrivial(hash((kind, json.dumps(leaf, sort_keys=True))))
         ctx.count(ncmp)
         ctx.validated(len(ls))
@@ -849,7 +851,7 @@ def submit_all(ctx, jobs):
     # PktLine families (initial states = cases; dumped)
     for fam in (["hex", "classq", "short"] if q else ["hex", "classt", "short"]) + ["enc", "sideband", "frames", "caps", "want"]:
         jobs.submit(f"PktLine[{fam}]", "PktLine.tla", f"PktLine_{fam}.cfg", dump_states=os.path.join(jobs.dir, fam),
-                    workers=4 if fam in ("classt", "classq", "hex") else 1)
+                    workers=2 if fam in ("classt", "classq", "hex") else 1)
     RDI = ["TotalDecoder", "OpExact", "Conservation", "BufferBound"]
     MXI = ["ParserExact", "WriterNoLoss", "SbWellFormed", "PipelineRoundTrip"]
     PKI = ["TrailerExact", "ByteExact"]
@@ -884,10 +886,10 @@ def submit_all(ctx, jobs):
         jobs.submit(name, spec, jobs.cfg("gen_" + kind + str(len(jobs.gens)), constants, invs + ["EmitLeaf"]), workers=workers)
     gen("StreamRd gen pkts", "rp", "StreamRd.tla",
         {"Scen": S("pkts"), "RBuf": rbuf, "MaxOps": 5, "MaxItems": 3, "MaxLen": 10 if q else 12, "Gen": "TRUE", "EmptyReadAsserts": "FALSE"},
-        RDI, {"rbuf": rbuf}, workers=4)
+        RDI, {"rbuf": rbuf}, workers=2)
     gen("StreamRd gen mixed", "rp", "StreamRd.tla",
         {"Scen": S("mixed"), "RBuf": rbuf, "MaxOps": 3 if q else 4, "MaxItems": 2, "MaxLen": 9 if q else 11, "Gen": "TRUE", "EmptyReadAsserts": "FALSE"},
-        RDI, {"rbuf": rbuf}, workers=4)
+        RDI, {"rbuf": rbuf}, workers=2)
     gen("StreamRdMux gen parser", "parser", "StreamRdMux.tla",
         {"Scen": S("parser"), "MaxItems": 2 if q else 3, "MaxLen": 11 if q else 14, "MaxFrag": 40, "BufSizes": "{0}", "SbMax": 3,
          "ResetBufLen": "FALSE", "Gen": "TRUE"}, MXI)
@@ -895,22 +897,26 @@ def submit_all(ctx, jobs):
         {"Scen": S("pipeline"), "MaxItems": 3, "MaxLen": 40, "MaxFrag": 1, "BufSizes": "{1, 4, 5, 8, 9, 13, 20, 100}" if not q else "{4, 8, 13, 100}",
          "SbMax": 65515, "ResetBufLen": "FALSE", "Gen": "TRUE"}, MXI)
     gen("StreamRdPack gen", "pack", "StreamRdPack.tla",
-        {"N": 7, "HS": 3, "MaxOps": 4 if q else 5, "Sizes": "{1, 2, 4, 5}", "Gen": "TRUE", "HashAfterPop": "TRUE"}, PKI, workers=4)
+        {"N": 7, "HS": 3, "MaxOps": 4 if q else 5, "Sizes": "{1, 2, 4, 5}", "Gen": "TRUE", "HashAfterPop": "TRUE"}, PKI, workers=2)
     if not q:
         gen("StreamRdPack gen hs2", "pack", "StreamRdPack.tla",
-            {"N": 6, "HS": 2, "MaxOps": 5, "Sizes": "{1, 3, 4}", "Gen": "TRUE", "HashAfterPop": "TRUE"}, PKI, workers=4)
+            {"N": 6, "HS": 2, "MaxOps": 5, "Sizes": "{1, 3, 4}", "Gen": "TRUE", "HashAfterPop": "TRUE"}, PKI, workers=2)
 
 
 # --------------------------------------------------------------------------- entry
 def run(ctx):
     _GIT["ctx"] = ctx
+    for f in os.listdir(ctx.replay_dir):           # replay files of earlier runs
+        if f.endswith(".json"):
+            os.unlink(os.path.join(ctx.replay_dir, f))
     rep = Rep(ctx)
-    jobs = Jobs(ctx, par=ctx.pick(3, 3))
+    jobs = Jobs(ctx, par=4)
     submit_all(ctx, jobs)
     part_pktline(ctx, rep, jobs)
     part_machines(ctx, rep, jobs)
     from .. import c19_traces
     c19_traces.part_traces(ctx, rep)
+    c19_traces.part_report_status(ctx, rep)
     c19_traces.part_git(ctx, rep, _git_repo())
     ctx.cov["rule"] = ("cases = (a) every initial state of the PktLine case families (all 65536 four-hex-digit prefixes, every 4-tuple over the "
                        "hex/non-hex class alphabet, encoder and side-band lengths at the size boundaries, all item sequences <=3, capability/"
@@ -932,6 +938,7 @@ def replay(ctx, path):
     obj = json.load(open(path))
     print(f"replay {path}\n  signature: {obj.get('signature')}\n  what: {obj.get('what')}")
     ctx.known = []
+    ctx.replay_dir = ctx.tmpdir("replay")          # a replay never overwrites recorded cases
     rep = Rep(ctx, verbose=True)
     kind = obj.get("kind")
     if kind in CHECKS:
